@@ -712,7 +712,7 @@ LOGRING = dict(
     gen={"quick": [dict(module="LogRing", cfg="LogRing_gen.cfg", workers=4)],
          "thorough": [dict(module="LogRing", cfg="LogRing_gen5.cfg", workers=8, timeout=3000)]},
     exec_args=lambda tier, seed: (["-n", 150, "-nconc", 40] if tier == "quick" else ["-n", 3000, "-nconc", 1500]),
-    flags={"C20": {"snapshot", "concsnapshot", "panic", "race", "harness", "unknown-op"}},
+    flags={"C20": {"snapshot", "writelogs", "concsnapshot", "panic", "race", "harness", "unknown-op"}},
     distinct=lambda s: s.get("distinct_signatures", 0),
     rule="histories = (a) every behaviour of LogRing.tla of 4 (thorough: 5) steps - writes of runs of 1/2/1023/1500 entries through "
          "the root logger and loggers derived at different times, derivations, snapshots - emitted by TLC (totals below, at and far "
